@@ -69,7 +69,13 @@ def generate(seed, tier, index):
             steps.append({"op": "rm_uuid", "id": rng.randrange(ncb)})
         elif r < 0.24 and ncb:
             steps.append({"op": "rm_callback", "id": rng.randrange(ncb)})
-        elif r < 0.3:
+        elif r < 0.34:
+            # a pending waitforevent sits in the callback list like any other callback and removes itself when it completes
+            steps.append({"op": "wait", "device": rng.choice([None, "DA"]), "vector": rng.choice([None, None, "P1"]),
+                          "type": rng.choice(["Value", "State", "Base"])})
+            if rng.random() < 0.7:
+                steps.append(reg())
+        elif r < 0.4:
             steps.append({"op": "rm_criteria", "device": rng.choice([None, "DA", "DB"]), "vector": rng.choice([None, None, "P1"]),
                           "element": rng.choice([None, None, "E1"]), "type": rng.choice([None, None, "Value", "Base"])})
         steps.append({"op": "msg", "spec": s, "style": library_style() if rng.random() < 0.5 else rand_style(rng)})
@@ -194,6 +200,7 @@ def execute(scen):
             return getattr(cbs[cid]["recorder"], kind)
 
         seen_msg = False
+        waits = []
         for st in scen["steps"]:
             if viol:
                 break
@@ -227,6 +234,13 @@ def execute(scen):
                 sim.do(lambda: client.rmonevent(uuid=c["uuid"]))
                 c["removed_at"] = msg_index[0]
                 probes["removed_by_uuid"] = probes.get("removed_by_uuid", 0) + 1
+            elif op == "wait":
+                kw = {"event_type": TYPES[st["type"]], "check": (lambda ev: True), "polling_enabled": False}
+                for k in ("device", "vector"):
+                    if st[k] is not None:
+                        kw[k] = st[k]
+                waits.append(sim.spawn(client.waitforevent(**kw)))
+                probes["pending_waitforevent"] = probes.get("pending_waitforevent", 0) + 1
             elif op == "rm_callback":
                 c = cbs.get(st["id"])
                 if c is None or c["removed_at"] is not None:
